@@ -48,6 +48,13 @@ type config []script
 // name gives script i of a set of n its name. Sets of even size use names that contain one another (lib.p,
 // my-lib.p, x-my-lib.p, ...; the missing script's name is a suffix of all of them): name handling must compare whole names.
 func name(i, n int) string {
+	if n == 3 || n == 5 {
+		// names with directories and equal base names
+		if i >= n {
+			return "b.p"
+		}
+		return strings.Repeat("lib/", i+1) + "b.p"
+	}
 	if n%2 == 0 {
 		if i >= n {
 			return "b.p"
